@@ -41,8 +41,8 @@
    Pinned beyond the property statement (a disagreement here is drift, not a violation):
      - CloseSend returns nil.
      - handler Send returns nil while the handler is running.
-     - client Send before the client knows of the closure returns nil (the property only says
-       what Send returns afterwards).                                                          *)
+     - client Send while the handler has not returned: nil, or StreamClosed after CloseSend
+       (the property only says what Send returns once the stream has ended).                                                          *)
 EXTENDS Naturals, Sequences, FiniteSets, TLC
 
 CONSTANTS Cap,      \* queue capacity per direction, in messages
